@@ -120,3 +120,127 @@ Theorem C03_generated_after_phase_is_model :
        snd (after_phase (w_known w) (w_isinst w) (w_builtin w) (w_page w) a m r)).
 Proof. exact gen_request_k1_eq. Qed.
 Print Assumptions C03_generated_after_phase_is_model.
+
+(* ---- translator tie: "the endpoint has been chosen (which the hook can
+   already see on the request)" rests on the three write-once slots of
+   poorwsgi/request.py SimpleRequest (uri_rule, uri_handler, error_handler).
+   gen/SlotsGen.v is regenerated from the current source by
+   harness/py2v_slots.py (SimpleRequest.__init__ slot part; the @property
+   getters and @<name>.setter setters, decorators and class-level bindings
+   verified) over lib/PySlots.v (an object = its attribute store; None =
+   Python's None); the hand model is model/Slots.v.  [abs o] reads the three
+   private attributes `_SimpleRequest__<name>` of an object.  For every
+   object state and every value: __init__ leaves the slots empty, the getter
+   returns the slot, the setter is [set_once] on its own slot and stores to
+   no other attribute; hence assigning an empty slot yields exactly the
+   value and a filled slot is never changed. *)
+From Coq Require Import String.
+Require Import PW.lib.PySlots PW.model.Slots PW.proofs.SlotsProofs
+  PW.gen.SlotsGen PW.proofs.SlotsGenEq.
+Local Open Scope string_scope.
+Local Open Scope list_scope.
+
+Theorem C03_generated_uri_handler_slot_is_write_once :
+  forall A : Type,
+    (forall o : obj A, abs A (gen_init_slots o) = empty_slots) /\
+    (forall o : obj A, gen_uri_handler_get o = get UriHandler (abs A o)) /\
+    (forall (o : obj A) v,
+        abs A (gen_uri_handler_set o v) = set_slot UriHandler v (abs A o)) /\
+    (forall (o : obj A) v name,
+        name <> "_SimpleRequest__uri_handler" ->
+        gen_uri_handler_set o v name = o name) /\
+    (forall (o : obj A) v,
+        gen_uri_handler_get o = None ->
+        gen_uri_handler_get (gen_uri_handler_set o v) = v) /\
+    (forall (o : obj A) v x,
+        gen_uri_handler_get o = Some x ->
+        gen_uri_handler_get (gen_uri_handler_set o v) = Some x).
+Proof. exact (fun A => generated_slot_is_write_once A UriHandler). Qed.
+Print Assumptions C03_generated_uri_handler_slot_is_write_once.
+
+Theorem C03_generated_uri_rule_slot_is_write_once :
+  forall A : Type,
+    (forall o : obj A, abs A (gen_init_slots o) = empty_slots) /\
+    (forall o : obj A, gen_uri_rule_get o = get UriRule (abs A o)) /\
+    (forall (o : obj A) v,
+        abs A (gen_uri_rule_set o v) = set_slot UriRule v (abs A o)) /\
+    (forall (o : obj A) v name,
+        name <> "_SimpleRequest__uri_rule" ->
+        gen_uri_rule_set o v name = o name) /\
+    (forall (o : obj A) v,
+        gen_uri_rule_get o = None ->
+        gen_uri_rule_get (gen_uri_rule_set o v) = v) /\
+    (forall (o : obj A) v x,
+        gen_uri_rule_get o = Some x ->
+        gen_uri_rule_get (gen_uri_rule_set o v) = Some x).
+Proof. exact (fun A => generated_slot_is_write_once A UriRule). Qed.
+Print Assumptions C03_generated_uri_rule_slot_is_write_once.
+
+Theorem C03_generated_error_handler_slot_is_write_once :
+  forall A : Type,
+    (forall o : obj A, abs A (gen_init_slots o) = empty_slots) /\
+    (forall o : obj A, gen_error_handler_get o = get ErrorHandler (abs A o)) /\
+    (forall (o : obj A) v,
+        abs A (gen_error_handler_set o v)
+        = set_slot ErrorHandler v (abs A o)) /\
+    (forall (o : obj A) v name,
+        name <> "_SimpleRequest__error_handler" ->
+        gen_error_handler_set o v name = o name) /\
+    (forall (o : obj A) v,
+        gen_error_handler_get o = None ->
+        gen_error_handler_get (gen_error_handler_set o v) = v) /\
+    (forall (o : obj A) v x,
+        gen_error_handler_get o = Some x ->
+        gen_error_handler_get (gen_error_handler_set o v) = Some x).
+Proof. exact (fun A => generated_slot_is_write_once A ErrorHandler). Qed.
+Print Assumptions C03_generated_error_handler_slot_is_write_once.
+
+(* the model fact behind them: a slot once set never changes under any
+   sequence of assignments to the three properties *)
+Theorem C03_filled_slot_is_stable :
+  forall (A : Type) n (x : A) ops s,
+    get n s = Some x -> get n (run_ops ops s) = Some x.
+Proof. exact filled_slot_is_stable. Qed.
+Print Assumptions C03_filled_slot_is_stable.
+
+(* ---- census tie (gen/SlotsGen.v [slot_writers], regenerated from every
+   poorwsgi/*.py on each run): every assignment / del / other binding of an
+   attribute named *uri_rule, *uri_handler, *error_handler (public property,
+   private attribute, mangled private attribute), every setattr / delattr /
+   __dict__ use, and every class-level definition of these names or of an
+   attribute-protocol method, is one the model accounts for
+   (model/Slots.v [allowed_slot_writers]): __init__ and the setters
+   themselves, handler_from_table, handler_from_default, state_from_table,
+   error_from_table.  Nothing else in the package writes the slots.  The
+   [In] clauses: the entries the property rests on are really there. *)
+Theorem C03_generated_endpoint_slot_writers_are_the_modelled_ones :
+  (forall w, In w slot_writers -> In w allowed_slot_writers) /\
+  In ("wsgi.Application.handler_from_table", "arg1.uri_handler", "loc0")
+     slot_writers /\
+  In ("wsgi.Application.handler_from_table", "arg1.uri_rule", "arg1.path")
+     slot_writers /\
+  In ("wsgi.Application.handler_from_default", "arg1.uri_handler",
+      "arg0.__dhandlers[arg1.method_number]") slot_writers /\
+  In ("request.SimpleRequest.uri_handler", "arg0.__uri_handler", "arg1")
+     slot_writers /\
+  In ("request.SimpleRequest", "def uri_handler", "uri_handler.setter")
+     slot_writers.
+Proof.
+  split; [apply slot_writers_ok_spec; vm_compute; reflexivity|].
+  repeat split; vm_compute; tauto.
+Qed.
+Print Assumptions C03_generated_endpoint_slot_writers_are_the_modelled_ones.
+
+(* after the application has assigned the chosen rule and handler on a
+   freshly initialised request (generated __init__ and setters), whatever
+   the before hooks assign through the three properties -- [hooks] = the
+   assignments of each hook, [k] = how many hooks have run -- every hook and
+   the endpoint read the chosen rule and handler *)
+Theorem C03_hooks_cannot_change_the_visible_endpoint :
+  forall (A : Type) (r h : A) (o : obj A) (hooks : list (list (op A))) k,
+    let o1 := gen_uri_handler_set
+                (gen_uri_rule_set (gen_init_slots o) (Some r)) (Some h) in
+    let o2 := gen_run_ops A (List.concat (firstn k hooks)) o1 in
+    gen_uri_rule_get o2 = Some r /\ gen_uri_handler_get o2 = Some h.
+Proof. exact generated_hooks_cannot_change_the_visible_endpoint. Qed.
+Print Assumptions C03_hooks_cannot_change_the_visible_endpoint.
